@@ -43,6 +43,7 @@ type CheckCfg struct {
 	Level       string     `json:"level"`
 	Assumptions []string   `json:"assumptions"`
 	Trusted     []string   `json:"trusted_base"`
+	ExhaustiveTier string  `json:"exhaustive_tier"` // tier whose case grid enumerates the whole finite parameter space
 }
 
 type Config struct {
